@@ -125,7 +125,19 @@ def fresh_child(proj: str, lib: str, flags: list[str], req: dict[str, Any]) -> d
     """Runs in a forked child: a brand-new daemon's first check on the files as they are."""
     os.chdir(proj)
     _setup_env(lib)
-    server = _make_server([f for f in flags if f != "--use-fine-grained-cache"], os.path.dirname(proj))
+    clean = []
+    skip = False
+    for f in flags:
+        if skip:
+            skip = False
+            continue
+        if f == "--use-fine-grained-cache":
+            continue
+        if f == "--cache-dir":
+            skip = True
+            continue
+        clean.append(f)
+    server = _make_server(clean, os.path.dirname(proj))
     return _request(server, {"cmd": "check", "files": req["files"]})
 
 
